@@ -95,6 +95,10 @@ EXTRACT ("C07Frustum", fr_asE, "C07.Frustum.aspectExc", { FRU (false); c.outS (f
 #define FOVIN T n = c.inS ("n"); T f = c.inS ("f"); T fovx = c.inS ("fovx"); T fovy = c.inS ("fovy"); T aspect = c.inS ("aspect"); symns::FrustumX<T> fr
 EXTRACT ("C07Frustum", fr_set, "C07.Frustum.setFov", { FOVIN; fr.set (n, f, fovx, fovy, aspect); OUTFRU; })
 EXTRACT ("C07Frustum", fr_setE, "C07.Frustum.setFovExc", { FOVIN; fr.setExc (n, f, fovx, fovy, aspect); OUTFRU; })
+// the same pair on an object whose PRIOR state is orthographic (set (…, true) first): the whole state is the result, so a
+// member that one of the two copies forgets to overwrite (e.g. the orthographic flag) is visible here and only here
+EXTRACT ("C07Frustum", fr_setO, "C07.Frustum.setFovFromOrtho", { FOVIN; fr.set (T (3), T (7), T (-2), T (5), T (4), T (-1), true); fr.set (n, f, fovx, fovy, aspect); OUTFRU; })
+EXTRACT ("C07Frustum", fr_setOE, "C07.Frustum.setFovExcFromOrtho", { FOVIN; fr.set (T (3), T (7), T (-2), T (5), T (4), T (-1), true); fr.setExc (n, f, fovx, fovy, aspect); OUTFRU; })
 
 //---------------------------------------------------------------------------
 // MatrixAlgo: the `exc` flag (one body, flag threaded down to checkForZeroScaleInRow)
